@@ -303,6 +303,12 @@ func NewHTTPTargeter(src io.Reader, body []byte, hdr http.Header) Targeter {
 		}
 		tgt.URL = tokens[1]
 		line = strings.TrimSpace(sc.Peek())
+		for strings.HasPrefix(line, "#") {
+			// Comments are ignored wherever they appear: drop the peeked
+			// line and look at the one after it.
+			sc.Text()
+			line = strings.TrimSpace(sc.Peek())
+		}
 		if line == "" || startsWithHTTPMethod(line) {
 			return nil
 		}
